@@ -1,8 +1,8 @@
 /* x86run - native execution of C06 test vectors on the host x86-64 processor.
  *
  * stdin : one vector per line
- *           id hexbytes rflags r0 r1 ... r15 memhex
- *         (all numbers hex; r0..r15 = rax rcx rdx rbx rsp rbp rsi rdi r8..r15; memhex = MEMN bytes)
+ *           id hexbytes brdelta rflags r0 r1 ... r15 memhex
+ *         (brdelta: displacement of a relative branch, decimal, 0 if none; all other numbers hex; r0..r15 = rax rcx rdx rbx rsp rbp rsi rdi r8..r15; memhex = MEMN bytes)
  * stdout: one result per line
  *           id sig rflags r0 ... r15 memhex ripdelta
  *         sig = 0, or the number of the signal the instruction raised (registers / memory then as found by
@@ -15,8 +15,8 @@
  *                     RIP-relative operand with displacement 0x1800+k addresses DATA+k
  *   DATA  0x10002000  MEMN scratch bytes, loaded from the vector before and dumped after the instruction
  *   CTX   0x10004000  register / flag save areas addressed absolutely (no register is needed to find them)
- * The instruction is executed in a forked child (one child per batch, re-forked after a crash); in the child
- * synchronous signals are caught on an alternate stack and reported.
+ * The instructions are executed in a forked child (one child runs as many vectors as it survives and is
+ * re-forked after a crash); in the child synchronous signals are caught on an alternate stack and reported.
  *
  * Branches: every byte of the code page that is not used is INT3.  A two-byte stub at NEXT records "fell
  * through", the branch target (anywhere in the page, before or after the instruction) gets a stub that records
@@ -132,6 +132,7 @@ static int run1(const uint8_t *ins, int n, long brdelta, long *ripdelta) {
   if (sigsetjmp(jb, 1) == 0) {
     ((void (*)(void))page)();
   } else {
+    __asm__ volatile("cld");
     return cursig;
   }
   *ripdelta = C->where == 1 ? n : C->where == 2 ? n + brdelta : -1;
@@ -156,57 +157,75 @@ int main(int argc, char **argv) {
   int sigs[] = {SIGSEGV, SIGBUS, SIGFPE, SIGILL, SIGTRAP};
   for (unsigned i = 0; i < sizeof sigs / sizeof *sigs; i++) sigaction(sigs[i], &sa, 0);
 
+  /* read all vectors, then execute them in forked children: one child runs as many vectors as it survives */
   static char line[8192];
+  char **lines = 0;
+  size_t nl = 0, cap = 0;
   while (fgets(line, sizeof line, stdin)) {
-    char *save = 0, *tok;
-    char *id = strtok_r(line, " \n", &save);
-    if (!id || id[0] == '#') continue;
-    uint8_t ins[16], mem[MEMN];
-    tok = strtok_r(0, " \n", &save);
-    int n = tok ? unhex(tok, ins, 15) : -1;
-    tok = strtok_r(0, " \n", &save);
-    long brdelta = tok ? strtol(tok, 0, 10) : 0;  /* displacement of a relative branch, decimal, 0 if none */
-    tok = strtok_r(0, " \n", &save);
-    uint64_t fl = tok ? strtoull(tok, 0, 16) : 0;
-    uint64_t r[16];
-    int ok = n > 0;
-    for (int k = 0; k < 16; k++) { tok = strtok_r(0, " \n", &save); if (!tok) { ok = 0; break; } r[k] = strtoull(tok, 0, 16); }
-    tok = strtok_r(0, " \n", &save);
-    if (!tok || unhex(tok, mem, MEMN) != MEMN) ok = 0;
-    if (!ok) { printf("%s -1\n", id); continue; }
-    fflush(stdout);
+    if (line[0] == '#' || line[0] == '\n') continue;
+    if (nl == cap) { cap = cap ? 2 * cap : 1024; lines = realloc(lines, cap * sizeof *lines); if (!lines) return 3; }
+    lines[nl++] = strdup(line);
+  }
+  size_t next = 0;
+  while (next < nl) {
     int pfd[2];
     if (pipe(pfd)) return 3;
+    fflush(stdout);
     pid_t pid = fork();
     if (pid == 0) {
       close(pfd[0]);
-      memcpy((void *)DATA, mem, MEMN);
-      memcpy(C->in, r, sizeof r);
-      C->inflags = 0x202 | (fl & FLAGMASK);
-      long rd = -1;
-      int sig = run1(ins, n, brdelta, &rd);
-      char out[4096]; int m = 0;
-      if (sig != 0) {
-        m = snprintf(out, sizeof out, "%s %d\n", id, sig);
-      } else {
-        m = snprintf(out, sizeof out, "%s 0 %llx", id, (unsigned long long)(C->outflags & FLAGMASK));
-        for (int k = 0; k < 16; k++) m += snprintf(out + m, sizeof out - m, " %llx", (unsigned long long)C->out[k]);
-        m += snprintf(out + m, sizeof out - m, " ");
-        for (int k = 0; k < MEMN; k++) m += snprintf(out + m, sizeof out - m, "%02x", ((uint8_t *)DATA)[k]);
-        m += snprintf(out + m, sizeof out - m, " %ld\n", rd);
+      FILE *out = fdopen(pfd[1], "w");
+      for (size_t j = next; j < nl; j++) {
+        char *save = 0, *tok;
+        char *id = strtok_r(lines[j], " \n", &save);
+        uint8_t ins[16], mem[MEMN];
+        tok = strtok_r(0, " \n", &save);
+        int n = tok ? unhex(tok, ins, 15) : -1;
+        tok = strtok_r(0, " \n", &save);
+        long brdelta = tok ? strtol(tok, 0, 10) : 0; /* displacement of a relative branch, decimal, 0 if none */
+        tok = strtok_r(0, " \n", &save);
+        uint64_t fl = tok ? strtoull(tok, 0, 16) : 0;
+        uint64_t r[16];
+        int ok = n > 0;
+        for (int k = 0; k < 16 && ok; k++) { tok = strtok_r(0, " \n", &save); if (!tok) ok = 0; else r[k] = strtoull(tok, 0, 16); }
+        tok = strtok_r(0, " \n", &save);
+        if (!tok || unhex(tok, mem, MEMN) != MEMN) ok = 0;
+        if (!ok) { fprintf(out, "%s -1\n", id ? id : "?"); fflush(out); continue; }
+        memcpy((void *)DATA, mem, MEMN);
+        memcpy(C->in, r, sizeof r);
+        C->inflags = 0x202 | (fl & FLAGMASK);
+        long rd = -1;
+        int sig = run1(ins, n, brdelta, &rd);
+        if (sig != 0) {
+          fprintf(out, "%s %d\n", id, sig);
+        } else {
+          fprintf(out, "%s 0 %llx", id, (unsigned long long)(C->outflags & FLAGMASK));
+          for (int k = 0; k < 16; k++) fprintf(out, " %llx", (unsigned long long)C->out[k]);
+          fprintf(out, " ");
+          for (int k = 0; k < MEMN; k++) fprintf(out, "%02x", ((uint8_t *)DATA)[k]);
+          fprintf(out, " %ld\n", rd);
+        }
+        fflush(out); /* a later crash must not lose this line */
       }
-      if (write(pfd[1], out, m) != m) _exit(4);
+      fclose(out);
       _exit(0);
     }
     close(pfd[1]);
-    char buf[4096]; int got = 0, k;
-    while ((k = read(pfd[0], buf + got, sizeof buf - 1 - got)) > 0) got += k;
-    close(pfd[0]);
+    FILE *in = fdopen(pfd[0], "r");
+    size_t done = 0;
+    while (fgets(line, sizeof line, in)) { fputs(line, stdout); done++; }
+    fclose(in);
     int st = 0;
     waitpid(pid, &st, 0);
-    buf[got] = 0;
-    if (got > 0) fputs(buf, stdout);
-    else printf("%s %d\n", id, WIFSIGNALED(st) ? 1000 + WTERMSIG(st) : 999);
+    next += done;
+    if (next < nl && !(WIFEXITED(st) && WEXITSTATUS(st) == 0)) {
+      /* the child died on vector `next' (a signal the handlers could not recover from) */
+      char *save = 0, *id = strtok_r(lines[next], " \n", &save);
+      printf("%s %d\n", id ? id : "?", WIFSIGNALED(st) ? 1000 + WTERMSIG(st) : 999);
+      next++;
+    } else if (done == 0 && next < nl) {
+      return 3;
+    }
   }
   return 0;
 }
